@@ -19,6 +19,7 @@ mod pgen;
 mod sx;
 mod vconv;
 mod vgen;
+mod vpairs;
 mod virev;
 mod vrun;
 mod vtxev;
@@ -489,6 +490,29 @@ pub fn run(args: &Args, out: &mut Out) {
             // a panic inside the harness itself (not under a guard of the real code): report, never hide
             hist.add("harness-panic");
             out.case(&format!("C01.fn\t{}\t-\t\t-\t-", one_line(&src)), "harness-panic", &format!("SKIP:harness panic {}", pn));
+        }
+    }
+    // exhaustive nesting shapes of the vector syntax (every tier)
+    {
+        let grid = vrun::parse_vvectors(&vpairs::grid_text()).unwrap_or_default();
+        for (shape, src) in vpairs::stream() {
+            let before = out.oracle_fail;
+            let mut arng = Rng::new(1);
+            let mut h2 = Hist::default();
+            if let Err(pn) = guard(|| vrun::vrun_program(&src, Some(("f1", &grid)), grid.len(), &mut arng, out, &mut h2)) {
+                hist.add("harness-panic");
+                out.case(&format!("C01.vfn\t{}\tf1\t{}\t-\t-", one_line(&src), vpairs::grid_text()), "harness-panic", &format!("SKIP:harness panic {}", pn));
+            }
+            hist.add("vshape");
+            if h2.0.contains_key("v:skip:front-end") {
+                hist.add(&format!("vshape-rejected-by-front-end:{}", shape));
+            }
+            if h2.0.keys().any(|k| k.starts_with("v:text-unsupported") || k.starts_with("v:unsupported")) {
+                hist.add(&format!("vshape-unsupported:{}", shape));
+            }
+            if out.oracle_fail > before {
+                hist.add(&format!("vshape-oracle-fail:{}", shape));
+            }
         }
     }
     // vector / struct / array / enum stream (C01.vfn): the Lean model answers `unsupported-op`, the two Rust evaluators judge
